@@ -64,6 +64,25 @@ def discharge(ctx, name, assertions, model_vars=(), replay=None, key_of=None, ex
         return verdict, {}
     # sat: counterexample -> native replay
     r = replay(model) if replay else None
+    if not (r and r.get("reproduced_in")) and printer == "int" and getattr(pr, "abstracted", None):
+        # the Int encoding abstracts bit operations by uninterpreted functions: a model that does not reproduce may be an
+        # artefact of that abstraction -> ask again bit-precisely (uniform-width bit-vectors)
+        try:
+            bits, _ = sx.max_bits(assertions)
+            pr2 = sx.BVPrinter(bits)
+            pr2.script(assertions)
+            mv2 = [v for v in model_vars if v in pr2.vars]
+            pr2 = sx.BVPrinter(bits)
+            v2, rs2 = sx.portfolio(pr2.script(assertions, get_values=mv2), max(timeout_s, 180), ("z3",), grace_s=0)
+            extra["bit_precise_refinement"] = {"verdict": v2, "width": bits, "time_s": round(rs2[0].time_s, 2)}
+            if v2 == "unsat":
+                rep.held(name, "Int-encoding model was an artefact of abstracted bit operations; proved with the bit-vector encoding", secs + rs2[0].time_s, "smt/refined-bv", **extra)
+                return "unsat", {}
+            if v2 == "sat":
+                model = rs2[0].model
+                r = replay(model) if replay else None
+        except Exception as e:
+            extra["bit_precise_refinement"] = {"error": str(e)[:200]}
     if r and r.get("reproduced_in"):
         key = key_of(r) if key_of else name
         rep.violated(name, key, "solver model reproduces natively: %s" % {k: r[k] for k in r if k != "native"},
